@@ -5,6 +5,7 @@ go 1.20
 require (
 	github.com/evergreen-ci/birch v0.0.0-20191213201306-f4dae6f450a2
 	github.com/mongodb/ftdc v0.0.0
+	github.com/pkg/errors v0.9.1
 	go.mongodb.org/mongo-driver v1.11.1
 )
 
@@ -22,7 +23,6 @@ require (
 	github.com/mattn/go-xmpp v0.0.0-20210723025538-3871461df959 // indirect
 	github.com/mongodb/grip v0.0.0-20211018154934-e661a71929d5 // indirect
 	github.com/papertrail/go-tail v0.0.0-20180509224916-973c153b0431 // indirect
-	github.com/pkg/errors v0.9.1 // indirect
 	github.com/satori/go.uuid v1.2.0 // indirect
 	github.com/shirou/gopsutil v3.21.9+incompatible // indirect
 	github.com/tklauser/go-sysconf v0.3.9 // indirect
